@@ -161,8 +161,9 @@ class DiagonalNormal(Distribution):
             )
 
         # Compute parameters.
-        means = self.mean_
-        log_stds = self.log_std_
+        # (stored flat: give them the event shape before broadcasting over the batch)
+        means = self.mean_.reshape(1, *self._shape)
+        log_stds = self.log_std_.reshape(1, *self._shape)
 
         # Compute log prob.
         norm_inputs = (inputs - means) * torch.exp(-log_stds)
@@ -177,4 +178,7 @@ class DiagonalNormal(Distribution):
         raise NotImplementedError()
 
     def _mean(self, context):
-        return self.mean
+        mean = self.mean_.reshape(self._shape)
+        if context is None:
+            return mean
+        return mean.expand(context.shape[0], *self._shape)
